@@ -105,6 +105,12 @@ class SpecCheck:
     real = ["teaal (all of it, from TEAAL_REPO working tree)", "lark", "sympy", "networkx", "ruamel.yaml",
             "CPython hash randomisation (PYTHONHASHSEED per node)", "CPython executing the emitted text"]
 
+    fresh = False          # True: every unit runs in its own pristine child of a template node
+    templates = 0
+
+    def case_text(self, spec):
+        return specmod.to_yaml(spec)
+
     # ---- to override -------------------------------------------------
     def gen(self, rng, k):
         raise NotImplementedError
@@ -142,7 +148,7 @@ class SpecCheck:
         h = doc["hash_seeds"][0]
         if h not in cluster.workers:
             h = cluster.hseeds[0]
-        res = cluster.run(self.units_for(0, case, [h]))
+        res = cluster.run(self.units_for(0, case, [h]), fresh=self.fresh, batch=1)
         r = res["0/%d" % h]
         if "harness_error" in r:
             raise orch.HarnessError("witness %s: %s" % (doc["id"], r["harness_error"][-500:]))
@@ -204,7 +210,8 @@ class SpecCheck:
         import hashlib
         log = hashlib.sha256()
         try:
-            with orch.Cluster(hseeds) as cluster:
+            with orch.Cluster(hseeds, templates=self.templates,
+                              per_seed=(1 if self.fresh else None)) as cluster:
                 self.cluster = cluster
                 k0 = 0
                 while True:
@@ -226,7 +233,7 @@ class SpecCheck:
                             continue
                         cases[k] = case
                         units.extend(self.units_for(k, case, hseeds))
-                    res = cluster.run(units)
+                    res = cluster.run(units, fresh=self.fresh, batch=1)
                     evals += len(units)
                     for k, case in sorted(cases.items()):
                         spec, meta, inputs = case
@@ -251,10 +258,10 @@ class SpecCheck:
                                 stats.add("rejected:%s" % r["reject"]["exc"])
                         if self.nontrivial(spec, meta):
                             for t in texts:
-                                nontrivial_keys.add((orch.sha(specmod.to_yaml(spec)), orch.sha(t)))
+                                nontrivial_keys.add((orch.sha(self.case_text(spec)), orch.sha(t)))
                         self.observe(spec, meta, per_seed, stats)
                         if len(samples) < 3 and texts:
-                            samples.append({"k": k, "yaml": specmod.to_yaml(spec), "distinct_texts": len(texts),
+                            samples.append({"k": k, "yaml": self.case_text(spec), "distinct_texts": len(texts),
                                             "hash_seeds": hseeds[:4], "first_text_head": texts[0][:600]})
                         try:
                             vs = self.judge(spec, meta, inputs, per_seed)
@@ -354,7 +361,7 @@ class SpecCheck:
         """Does this (possibly shrunk) case still violate with the same class on these seeds?"""
         spec, meta, inputs = case
         units = self.units_for(0, case, hseeds)
-        res = cluster.run(units)
+        res = cluster.run(units, fresh=self.fresh, batch=1)
         per_seed = {}
         for h in hseeds:
             r = res["0/%d" % h]
@@ -389,7 +396,7 @@ class SpecCheck:
             except Exception:
                 doc["minimise_error"] = traceback.format_exc()[-1500:]
             spec, meta, inputs = mini
-            doc.update({"yaml": specmod.to_yaml(spec), "spec": spec, "meta": meta, "inputs": inputs,
+            doc.update({"yaml": self.case_text(spec), "spec": spec, "meta": meta, "inputs": inputs,
                         "minimise_steps": steps, "original_k": k})
             # replay in fresh interpreters must reproduce
             try:
@@ -406,7 +413,7 @@ class SpecCheck:
         tries = 0
         steps = 0
         best_v = None
-        with orch.Cluster(hseeds, per_seed=1) as cl:
+        with orch.Cluster(hseeds, per_seed=1, templates=self.templates) as cl:
             progress = True
             while progress and tries < max_tries and time.time() - t0 < max_seconds:
                 progress = False
@@ -429,7 +436,7 @@ class SpecCheck:
         case = (doc["spec"], doc["meta"], doc["inputs"])
         hseeds = doc["hash_seeds"] or [0]
         v = Violation(doc["violation_class"], hseeds, doc.get("detail"))
-        with orch.Cluster(hseeds, per_seed=1) as cl:
+        with orch.Cluster(hseeds, per_seed=1, templates=self.templates) as cl:
             w = self.fails_same(case, v, cl, hseeds)
         if not quiet:
             if w is not None:
